@@ -6,6 +6,7 @@ import Ahbicht.Model.Fc
 import Ahbicht.Model.AhbEval
 import Ahbicht.Model.Resolve
 import Ahbicht.Model.Extract
+import Ahbicht.Model.Val
 /-!
 # line-protocol driver: one JSON request per line on stdin, one JSON answer per line on stdout
 -/
@@ -82,6 +83,53 @@ def fcEnvOf (j : Json) : FcEnv := fun k =>
 
 def rcResultJson (r : RcResult) : Json :=
   Json.mkObj [("fulfilled", optBool r.fulfilled), ("conditional", optBool r.conditional), ("fce", optStr r.fce), ("hints", optStr r.hints)]
+
+def optStrOf (j : Json) (k : String) : Option String :=
+  match j.getObjVal? k with | .ok (Json.str s) => some s | _ => none
+
+def nodeResOf (j : Json) : Except String NodeRes := do
+  match j.getObjVal? "invalid" with
+  | .ok (Json.str m) => pure (.invalid m)
+  | _ =>
+    let ind ← match Ind.ofString? (← getStrE j "ind") with | some i => pure i | none => throw "bad indicator"
+    let ful := match j.getObjVal? "fulfilled" with | .ok (Json.bool b) => some b | _ => none
+    let fcOk := match j.getObjVal? "fc_ok" with | .ok (Json.bool b) => b | _ => true
+    pure (.ok ⟨ind, ful, optStrOf j "hints", fcOk, optStrOf j "fc_msg"⟩)
+where getStrE (j : Json) (k : String) : Except String String := j.getObjValAs? String k
+
+def dataElementOf (j : Json) : Except String DataElement := do
+  let k ← j.getObjValAs? String "k"
+  let disc ← j.getObjValAs? String "disc"
+  if k == "free" then
+    pure (.free disc (← nodeResOf (← j.getObjVal? "res")) (optStrOf j "input") (optStrOf j "vtype"))
+  else
+    let es ← (← j.getObjVal? "entries").getArr?
+    let entries ← es.toList.mapM fun e => do
+      pure (⟨← e.getObjValAs? String "q", ← e.getObjValAs? String "m", ← nodeResOf (← e.getObjVal? "res")⟩ : PoolEntry)
+    pure (.pool disc entries (optStrOf j "input"))
+
+def segmentOf (j : Json) : Except String Segment := do
+  let des ← (← j.getObjVal? "des").getArr?
+  pure ⟨← j.getObjValAs? String "disc", ← nodeResOf (← j.getObjVal? "res"), ← des.toList.mapM dataElementOf⟩
+
+mutual
+partial def groupOf (j : Json) : Except String Group := do
+  let gs ← (← j.getObjVal? "groups").getArr?
+  let ss ← (← j.getObjVal? "segs").getArr?
+  pure (.mk (← j.getObjValAs? String "disc") (← nodeResOf (← j.getObjVal? "res")) (← groupsOf gs.toList) (← ss.toList.mapM segmentOf))
+partial def groupsOf (js : List Json) : Except String Groups :=
+  match js with
+  | [] => pure .nil
+  | j :: rest => do pure (.cons (← groupOf j) (← groupsOf rest))
+end
+
+def outJson (o : Out) : Json :=
+  Json.mkObj [("disc", o.disc), ("is_de", o.isDataElement), ("status", o.status.name), ("hints", optStr o.hints),
+    ("fc_ok", optBool o.fcOk), ("fc_msg", optStr o.fcMsg),
+    ("possible", match o.possible with | some l => Json.arr (l.map fun kv => Json.arr #[Json.str kv.1, Json.str kv.2]).toArray | none => Json.null),
+    ("dtype", optStr o.dtype)]
+
+def vErrName : VErr → String | .notImplemented => "NotImplementedError" | .valueError => "ValueError" | .other => "other"
 
 def partJson (p : Part) (cond : Json) : Json :=
   Json.arr #[Json.str (if p.cond.isSome then "part" else "bare"),
@@ -174,6 +222,21 @@ def handle (j : Json) : Except String Json := do
     pure (Json.mkObj [("results", Json.arr (res.map fun fr =>
       Json.arr #[Json.arr (fr.1.map fun kv => Json.arr #[str kv.1, Json.bool kv.2]).toArray,
                  Json.arr (fr.2.map fun kv => Json.arr #[str kv.1, Json.str kv.2.toString]).toArray]).toArray)])
+  | "validate" =>
+    let soll := (j.getObjValAs? Bool "soll").toOption.getD true
+    let lines ← (← j.getObjVal? "lines").getArr?
+    let gs ← groupsOf lines.toList
+    match validateAhb gs soll with
+    | .ok outs => pure (Json.mkObj [("results", Json.arr (outs.map outJson).toArray)])
+    | .error e => pure (Json.mkObj [("err", vErrName e)])
+  | "validateSegment" =>
+    let soll := (j.getObjValAs? Bool "soll").toOption.getD true
+    let seg ← segmentOf (← j.getObjVal? "segment")
+    let parent : Option RVV := match optStrOf j "parent" with
+      | some "IS_REQUIRED" => some .IS_REQUIRED | some "IS_OPTIONAL" => some .IS_OPTIONAL | some "IS_FORBIDDEN" => some .IS_FORBIDDEN | _ => none
+    match validateSegment seg parent soll with
+    | .ok outs => pure (Json.mkObj [("results", Json.arr (outs.map outJson).toArray)])
+    | .error e => pure (Json.mkObj [("err", vErrName e)])
   | _ => throw s!"unknown op {op}"
 
 partial def loop (h : IO.FS.Stream) (out : IO.FS.Stream) : IO Unit := do
